@@ -1136,6 +1136,15 @@ func (e *Enc) instr(ins ssa.Instruction) {
 		e.globalWriteCheck(x)
 		e.frameCheck(x, addr.T)
 		e.lockCheck(x.Addr, true, x.Pos())
+		if c, isHash := e.hashArr[x.Val]; isHash {
+			if al, isAl := x.Addr.(*ssa.Alloc); isAl && onlyStoredOnceAndSliced(al, x) {
+				// `hash := sha256.Sum256(buf)`: the local array holds the digest; `hash[:]` has that content
+				if e.allocHash == nil {
+					e.allocHash = map[ssa.Value]string{}
+				}
+				e.allocHash[al] = c
+			}
+		}
 		e.store(h, addr.T, x.Addr, t, e.val(x.Val).T)
 		if tokUpd != nil {
 			tokUpd()
@@ -1586,6 +1595,23 @@ func (e *Enc) binop(x *ssa.BinOp) {
 	}
 }
 
+// onlyStoredOnceAndSliced: the local array is written by this one store and otherwise only sliced.
+func onlyStoredOnceAndSliced(al *ssa.Alloc, st *ssa.Store) bool {
+	for _, r := range *al.Referrers() {
+		switch x := r.(type) {
+		case *ssa.Store:
+			if x != st {
+				return false
+			}
+		case *ssa.Slice:
+		case *ssa.DebugRef:
+		default:
+			return false
+		}
+	}
+	return true
+}
+
 func isPow2(n int64) bool { return n > 0 && n&(n-1) == 0 }
 
 func (e *Enc) bitop(x *ssa.BinOp, fn string, a, b Val, t types.Type) {
@@ -1734,7 +1760,9 @@ func (e *Enc) sliceOp(x *ssa.Slice) {
 		e.oblige("nil", desc, "", x.Pos(), e.guardGoal(app("distinct", v.T, "nil")))
 		e.oblige("slice", desc, "", x.Pos(), e.guardGoal(and(app("<=", "0", lo), app("<=", lo, hi), app("<=", hi, mx), app("<=", mx, n))))
 		r := e.define(x, app("mkslice", v.T, lo, app("-", hi, lo), app("-", mx, lo)))
-		if al, isAl := x.X.(*ssa.Alloc); isAl && e.token && typeKey(arr.Elem()) == "uint8" && onlySliced(al, x) {
+		if c, isHash := e.allocHash[x.X]; isHash && e.token && x.Low == nil && x.High == nil && x.Max == nil {
+			e.setBytes(e.cur, r.T, c)
+		} else if al, isAl := x.X.(*ssa.Alloc); isAl && e.token && typeKey(arr.Elem()) == "uint8" && onlySliced(al, x) {
 			// make([]byte, n) / make([]byte, n, N): a fresh zeroed array that is reachable through this slice only
 			e.setBytes(e.cur, r.T, app("bzeros", app("-", hi, lo)))
 		} else if e.token && typeKey(arr.Elem()) == "uint8" && arr.Len() <= e.arrayExpandMax() {
